@@ -81,7 +81,7 @@ def do_case(ctx, inp):
 
 
 def run(ctx):
-    n = (400 if ctx.quick else 6000) * (3 if ctx.search else 1)
+    n = (1200 if ctx.quick else 8000) * (3 if ctx.search else 1)
     for _ in range(n):
         if ctx.rng.random() < 0.25:
             do_case(ctx, {"p": gen_chain(ctx.rng, ctx.quick), "chain": True})
